@@ -69,6 +69,7 @@ class Ctx:
     tier: str
     seed: int
     cache: dict = field(default_factory=dict)
+    spec_eval: object = None     # callable: list of driver lines -> list of results (extracted Coq spec/model)
 
     @property
     def quick(self):
@@ -659,6 +660,89 @@ def c17_streams(ctx):
 
 
 # ------------------------------------------------------------------------------------------------
+# C06 / C09
+
+# positions of the BBAN whose values are enumerated to find nationally valid numbers (the check field;
+# for CZ/SK the last digit of prefix and of account)
+TWEAK = {"BE": [10, 11], "BA": [14, 15], "ME": [16, 17], "MK": [13, 14], "PT": [19, 20], "RS": [16, 17], "SI": [13, 14],
+         "TL": [17, 18], "MR": [21, 22], "TN": [18, 19], "FR": [21, 22], "MC": [21, 22], "ES": [8, 9], "IT": [0], "SM": [0],
+         "FI": [13], "NO": [10], "PL": [7], "EE": [15], "CZ": [9, 19], "SK": [9, 19], "IS": [20]}
+NATIONAL = sorted(TWEAK)
+
+
+def national_candidates(ctx, cc, n):
+    """n random conforming BBANs of cc, each expanded over all values of the tweak positions;
+    returns (bban, spec_verdict) pairs with the verdict asked from the extracted published-rule spec."""
+    rng = ctx.rng
+    row = ctx.facts["iban_rows"][cc]
+    kinds = "".join(k * cnt for cnt, _b, k in parse_structure(row["bban_spec"]))
+    cands = []
+    for _ in range(n):
+        b = list(random_bban(ctx, cc))
+        if cc == "NO" and rng.random() < 0.3:
+            b[4:6] = "00"
+        if cc == "IS" and rng.random() < 0.5:
+            b[12:20] = rng.choice(["01017000", "12024500", "31129999"])    # plausible dates
+        pos = TWEAK[cc]
+        pools = [KINDS[kinds[p]] for p in pos]
+        combos = [[]]
+        for pool in pools:
+            combos = [c + [ch] for c in combos for ch in pool]
+        for combo in combos:
+            for p, ch in zip(pos, combo):
+                b[p] = ch
+            cands.append("".join(b))
+    verdicts = ctx.spec_eval(["\t".join(["spec_published", enc(cc), enc(b)]) for b in cands])
+    return list(zip(cands, verdicts))
+
+
+def c06_streams(ctx):
+    rng = ctx.rng
+    n = 3 if ctx.quick else 40
+    for cc in NATIONAL:
+        if cc not in ctx.facts["iban_rows"]:
+            continue
+        pairs = national_candidates(ctx, cc, n)
+        valid = [b for b, v in pairs if v == "1"]
+        invalid = [b for b, v in pairs if v == "0"]
+        chosen = valid + rng.sample(invalid, min(len(invalid), max(6, 2 * len(valid))))
+        for b in chosen:
+            tag = "accept-side" if b in valid else "reject-side"
+            yield Case("prop", "spec_published", [enc(cc), enc(b)], cc + "-" + tag, True)
+            yield Case("corr", "validate_national", [enc(cc), enc(b)], cc + "-" + tag, True)
+            iban = cc + iso_digits(cc, b) + b
+            yield Case("prop", "spec_national_accept", [enc(iban)], cc + "-iban-" + tag, True)
+            yield Case("corr", "iban_new", [enc(iban), "0", "1"], cc + "-iban-" + tag, True)
+            yield Case("corr", "iban_validate", [enc(iban), "1"], cc + "-iban-" + tag, True)
+        # single-digit perturbations of valid numbers
+        for b in valid[: (4 if ctx.quick else 40)]:
+            p = rng.randrange(len(b))
+            if b[p] in DIGITS:
+                m = b[:p] + str((int(b[p]) + rng.choice([1, 9])) % 10) + b[p + 1:]
+                yield Case("prop", "spec_published", [enc(cc), enc(m)], cc + "-perturbed", True)
+                yield Case("corr", "validate_national", [enc(cc), enc(m)], cc + "-perturbed", True)
+    # countries without a national algorithm: national validation changes nothing (DE is C07)
+    for cc in countries(ctx):
+        if cc in TWEAK or cc == "DE":
+            continue
+        for _ in range(1 if ctx.quick else 6):
+            v = valid_iban(ctx, cc)
+            yield Case("prop", "spec_national_accept", [enc(v)], "unaffected", True)
+            yield Case("corr", "iban_new", [enc(v), "0", "1"], "unaffected", True)
+            yield Case("prop", "spec_published", [enc(cc), enc(v[4:])], "unaffected", True)
+            w = v[:-1] + same_kind_other(ctx, v[-1])
+            yield Case("prop", "spec_national_accept", [enc(w)], "unaffected-invalid", True)
+    # national validation can only reject
+    for t, tag, nt in c01_inputs(ctx):
+        if ctx.quick and rng.random() < 0.8:
+            continue
+        if t[:2].upper() == "DE":
+            continue
+        yield Case("corr", "iban_new", [enc(t), "0", "1"], "only-rejects", nt)
+        yield Case("prop", "spec_only_rejects", [enc(t)], "only-rejects", nt)
+
+
+# ------------------------------------------------------------------------------------------------
 # known findings
 
 def match_known(v: dict, known: list):
@@ -689,6 +773,14 @@ PREDICATES = {}
 
 
 REGISTRY = {
+    "C06": {
+        "streams": c06_streams,
+        "rule": "per country with a national algorithm: random structure-conforming BBANs expanded over every value of the check "
+                "field (accept side selected by the extracted published-rule spec, independent of schwifty), single-digit "
+                "perturbations, letters where allowed; BBAN-level verdict (true / raises) and IBAN-level acceptance with "
+                "validate_bban vs the spec (property) and vs the model (correspondence); countries without an algorithm are "
+                "unaffected; national validation only rejects",
+    },
     "C12": {
         "streams": c12_streams,
         "rule": "registry keys (country, bank code) - all 22 753 in thorough, 500 in quick - through candidates_from_bank_code "
